@@ -39,6 +39,10 @@ type Request struct {
 	Exit     int    `json:"exit"`
 	Response string `json:"response"` // empty allow allow-rich deny empty-object truncated wrongtype whitespace
 	CType    string `json:"ctype"`
+	// Extra: another output of the execution that cannot be parsed or applied, so that the execution fails although
+	// the hook exited 0 and wrote its response: "" none, bad-patch (unknown operation), unappliable-patch (merge patch
+	// of an object that does not exist), bad-metrics (truncated), invalid-metrics (operation without action)
+	Extra string `json:"extra,omitempty"`
 }
 
 type Case struct {
@@ -94,6 +98,7 @@ func gen(t *rapid.T) Case {
 		r.Exit = rapid.SampledFrom([]int{0, 0, 0, 1, 2}).Draw(t, "exit")
 		r.Response = rapid.SampledFrom([]string{"empty", "allow", "allow", "allow-rich", "allow-rich", "deny", "empty-object", "truncated", "wrongtype", "whitespace"}).Draw(t, "resp")
 		r.CType = "application/json"
+		r.Extra = rapid.SampledFrom([]string{"", "", "", "", "bad-patch", "unappliable-patch", "bad-metrics", "invalid-metrics"}).Draw(t, "extra")
 		c.Requests = append(c.Requests, r)
 	}
 	return c
@@ -199,6 +204,19 @@ func runCase(c Case) (ev.Info, error) {
 			}
 		}
 		beh := vh.Behaviour{Exit: r.Exit, Admission: responseFile(r.Response)}
+		switch r.Extra {
+		case "bad-patch":
+			beh.Patch = &vh.File{Content: `{"operation":"Explode","kind":"Pod","name":"x"}`}
+		case "unappliable-patch":
+			beh.Patch = &vh.File{Content: `{"operation":"MergePatch","apiVersion":"v1","kind":"ConfigMap","namespace":"default","name":"no-such-object","mergePatch":{"data":{"a":"b"}}}`}
+		case "bad-metrics":
+			beh.Metrics = &vh.File{Content: `{"name":"c14_m","set":`}
+		case "invalid-metrics":
+			beh.Metrics = &vh.File{Content: `{"name":"c14_m","value":1}`}
+		}
+		if r.Extra != "" {
+			info.Labels = append(info.Labels, "failing-output:"+r.Extra)
+		}
 		for _, h := range c.Hooks {
 			if err := env.Tree.SetScript(h.Name, vh.Script{Rules: []vh.Rule{{Do: beh}}}); err != nil {
 				return info, fmt.Errorf("harness: %v", err)
@@ -228,7 +246,7 @@ func runCase(c Case) (ev.Info, error) {
 				ran = append(ran, x)
 			}
 		}
-		shouldAllow := registered && r.Body == "valid" && r.Exit == 0 && (r.Response == "allow" || r.Response == "allow-rich")
+		shouldAllow := registered && r.Body == "valid" && r.Exit == 0 && r.Extra == "" && (r.Response == "allow" || r.Response == "allow-rich")
 		if !shouldAllow {
 			info.NonTrivial = true
 		}
@@ -336,7 +354,7 @@ func runCase(c Case) (ev.Info, error) {
 			continue
 		}
 		// relay of the verdict
-		if r.Exit == 0 && rec.Code == http.StatusOK {
+		if r.Exit == 0 && r.Extra == "" && rec.Code == http.StatusOK {
 			switch r.Response {
 			case "allow-rich":
 				if fmt.Sprint(review.Response.Warnings) != "[w1 w2]" {
@@ -365,7 +383,7 @@ func runCase(c Case) (ev.Info, error) {
 	return info, nil
 }
 
-const rule = "1-3 scripted hooks with generated kubernetesValidating/kubernetesMutating bindings (names with dots, capitals, spaces, slashes, underscores; collisions after URL sanitising and across hooks included; a third of the bindings with the group option) loaded by the real operator assembly; 1-6 AdmissionReview requests through the real HTTP router: path {registered, unknown configuration id, unknown webhook id, extra segment, root, the binding's name as written instead of its sanitised id} x body {valid, missing request, not JSON} x hook exit {0,1,2} x response file {empty, allowed, allowed+message+warnings+patch, denied, {}, truncated, wrong type, whitespace}; oracle: decision table for allowed=true, uid echo, verdict relay (warnings, patch, patchType, denial message), and the hook log shows the hook/binding/type that registered the path (for a webhook id declared by several hooks: the hook whose webhook configuration the operator keeps under that id, told apart by timeoutSeconds). Non-trivial: a request that must not be allowed, or a webhook id declared by several hooks."
+const rule = "1-3 scripted hooks with generated kubernetesValidating/kubernetesMutating bindings (names with dots, capitals, spaces, slashes, underscores; collisions after URL sanitising and across hooks included; a third of the bindings with the group option) loaded by the real operator assembly; 1-6 AdmissionReview requests through the real HTTP router: path {registered, unknown configuration id, unknown webhook id, extra segment, root, the binding's name as written instead of its sanitised id} x body {valid, missing request, not JSON} x hook exit {0,1,2} x another output that makes the execution fail {none, unknown patch operation, patch that cannot be applied, truncated metrics, metric operation without action} x response file {empty, allowed, allowed+message+warnings+patch, denied, {}, truncated, wrong type, whitespace}; oracle: decision table for allowed=true, uid echo, verdict relay (warnings, patch, patchType, denial message), and the hook log shows the hook/binding/type that registered the path (for a webhook id declared by several hooks: the hook whose webhook configuration the operator keeps under that id, told apart by timeoutSeconds). Non-trivial: a request that must not be allowed, or a webhook id declared by several hooks."
 
 func TestAdmission(t *testing.T) {
 	ev.Main(t, ev.Spec[Case]{Property: "C14", Part: "admission", Rule: rule, Gen: gen, Run: runCase, Journal: true})
